@@ -136,7 +136,7 @@ CHECKS = {
     engine='kani'),
  'C19': dict(
     category='other',
-    text='The shipped front-end sources are compiled from /repo with the library call replaced by a logger and compared with an independent reference scanner for every byte string of length 0..6 (quick) / 0..10 (thorough): consumed prefix, remainder, what reaches the library (trimmed digits, saturated exponent), sign, no panic.',
+    text='The shipped front-end sources are compiled from /repo with the library call replaced by a logger and compared with an independent reference scanner for every byte string of length 0..6 (quick) / 0..8 (thorough): consumed prefix, remainder, what reaches the library (trimmed digits, saturated exponent), sign, no panic.',
     design_ref='DESIGN.md section 6 (C19)',
     note='The library value itself is C01/C02. Sources are trimmed mechanically (crate attributes, extern crate, main/tests; two fns made pub).',
     technique='Kani BMC over all byte strings of bounded length',
